@@ -7,21 +7,24 @@ from .lib_c12 import (STATUS_PATH, TO_STRING, Origin, accept_edges, agg_field_op
 
 LEVEL = "other"
 TECHNIQUE = ("static analysis: evaluated associated constants (status table), MIR slices from Builder::status/header/body operands, "
-             "reachability order of HeaderMap::insert vs extend, edge dominance of the Location validation over Ok(..)")
+             "reachability order of HeaderMap::insert vs extend (insert sites in the function or in iterator-adaptor closures, resolved through captures), guarding of the redirect "
+             "construction site by the Location validation (Ok edge dominance, or an Ok-only combinator closure)")
 LEVEL_TEXT = ("Decides on the type-checked MIR of the current tree: (R1) the evaluated STATUS_CODE of every HttpCodedResponse impl equals the specified table "
               "(200/201/202/204/204/302/303/307) and the body type is Empty exactly for the 204/3xx kinds; (R2) for_object gives Self::STATUS_CODE to Builder::status and "
               "hands the untouched body and that builder to Body::to_response, no impl overrides it, and every `From<X> for HttpHandlerResult` calls for_object of its own X "
               "with the wrapped value; (R3) the JSON to_response serialises `self` with serde_json, sets CONTENT_TYPE to the constant whose value is application/json on the "
               "builder it was given (no second status/header) and returns that response; (R4) Empty::to_response uses Body::empty() and sets no header; "
               "(R5) in HttpResponseHeaders::to_result every declared header (from to_map(&structured_headers)) is inserted before — never after — extend(other_headers), on the "
-              "response produced from `body`, and every Ok return has passed the extend; (R6) each redirect constructor validates HeaderValue::from_str(&location) on an edge "
-              "that dominates its Ok(..), the failure edge returns an error, the status type has the right evaluated code and Location is the argument; (R7) to_map stores "
+              "response produced from `body`, and every Ok return has passed the extend; (R6) each redirect constructor validates HeaderValue::from_str(&location) and builds its response (HttpResponseHeaders::new) only where that "
+              "validation succeeded — on the Ok edge of the check (`?`, match, if-let, a validation helper) or inside the closure of Result::map / and_then applied to the check — "
+              "the failure edge returns an error, the status type has the right evaluated code and Location is the argument; (R7) to_map stores "
               "key and string value unmodified. Not decided: that serde_json's output parses back to the same value; http::HeaderMap::{insert,extend} semantics.")
 LEVEL_NOTE = ("Trusts rustc MIR construction + const evaluation, the fact extractor, serde_json::to_string, http::response::Builder, HeaderMap::insert/extend "
               "(extend replaces an existing name on its first occurrence), HeaderValue::from_str.")
 EXPLANATION = ("CONST table over ctx.ds.const_list joined with the impl table; CHAIN slices of the operands of Builder::status / header / body and BTreeMap::insert with "
                "short allow-lists; ORDER by CFG reachability between HeaderMap::insert sites and Extend::extend; DOM by edge dominance of the Ok/Continue edge of the switch on the "
-               "validation result over every `_0 = Ok(..)`; SIBLINGS over the three redirect constructors and the eight From impls.")
+               "validation result over the construction site HttpResponseHeaders::new (or its placement in a Result::map / and_then closure of that result); closure-transparent origins "
+               "(captures resolved in the enclosing function) for header name / value / map; SIBLINGS over the three redirect constructors and the eight From impls.")
 TRUSTED = ["rustc nightly MIR construction + const evaluation", "mirfacts extractor", "rules/engine.py slices, dominators",
            "serde_json::to_string", "http::response::Builder::{status,header,body}", "http::HeaderMap::{insert,extend}", "http::HeaderValue::from_str"]
 
@@ -330,8 +333,8 @@ def r5_header_order(ctx):
 
 
 def r6_redirects(ctx):
-    R = ctx.rule("C12.R6", "each redirect constructor checks HeaderValue::from_str(&location); the Ok/Continue edge of that check dominates Ok(..), the failure edge returns an "
-                 "error; the response is HttpResponseHeaders::new(<status type with the right code>, RedirectHeaders{location})", floor=17)
+    R = ctx.rule("C12.R6", "each redirect constructor checks HeaderValue::from_str(&location); the response is constructed only on the Ok/Continue side of that check (edge dominance over the "
+                 "construction, or an Ok-only combinator closure), the failure edge returns an error; the response is HttpResponseHeaders::new(<status type with the right code>, RedirectHeaders{location})", floor=17)
     codes = {im["self"]: im["status"] for im in coded_impls(ctx.ds)}
     statuses = []
     for name, want in sorted(REDIRECTS.items()):
@@ -367,7 +370,7 @@ def r6_redirects(ctx):
                 takers = [(cbb, ct) for cbb, ct in f.live_calls() for h, node in closure_args_of_call(f, ct) if h is g]
                 guarded = len(takers) == 1 and bool(re.search(r"Result::<T, E>::(map|and_then)$", takers[0][1].get("callee") or "")) and \
                     f.slice(takers[0][1]["args"][0]).has_call(VALID) and \
-                    not callee_allow(f.slice(takers[0][1]["args"][0]), PLUMBING + [VALID, r"Result::<T, E>::map_err$", r"^handler::http_redirect_error$", r"^error::HttpError::for_", r"String::as_str$"])
+                    not callee_allow(f.slice(takers[0][1]["args"][0]), PLUMBING + [VALID, r"Result::<T, E>::(map_err|map|and_then)$", r"^handler::http_redirect_error$", r"^error::HttpError::for_", r"String::as_str$"])
                 how = "built inside the closure of %s applied to the result of the location check (runs only for Ok)" % ([ct.get("callee") for _, ct in takers] or "?")
                 refused = guarded
                 rhow = "Result::map / and_then hand an Err on untouched"
@@ -379,7 +382,7 @@ def r6_redirects(ctx):
             code = codes.get(st_ty)
             ho = Origin(ctx.ds, g, nt["args"][1])
             rh = [a for h_, sl_ in ho.parts for a in sl_.atoms if a[0] == "agg" and a[1] == "handler::RedirectHeaders"]
-            loc_ok = bool(rh) and ho.params_of(f) == [1] and not ho.callees() and not ho.unresolved and not ho.item_params
+            loc_ok = bool(rh) and ho.params_of(f) == [1] and not ho.bad_callees() and not ho.computed() and not ho.unresolved and not ho.item_params
             statuses.append(st_ty)
             ctx.check(R, "%s:status-and-location" % name, code == want and loc_ok,
                       "status type %s has STATUS_CODE %s (want %d); headers = RedirectHeaders{location: the argument, unmodified}=%s" % (st_ty, code, want, loc_ok), (g, bb))
